@@ -23,6 +23,9 @@ def jobs_semver(tier):
             for m in range(1, npair + 1):
                 jobs.append(dict(base, harness="VerifC04Compare", params={"sys": sys, "n": n, "m": m}))
                 jobs.append(dict(base, harness="VerifC04ConstraintMatch", params={"sys": sys, "n": n, "m": m}))
+        for shape in range(11):
+            for n, m in ([(1, 1)] if tier == "quick" else [(1, 1), (2, 1), (1, 2), (2, 2)]):
+                jobs.append(dict(base, harness="VerifC04ConstraintShape", params={"sys": sys, "shape": shape, "n": n, "m": m}))
     return jobs
 
 
